@@ -154,6 +154,7 @@ type Exec struct {
 	harnessPkg *ssa.Package
 	inconclusive []string
 	assertsTotal int
+	lastRun *Thread
 	usedUF bool
 	viper map[string]IfaceV
 	pending []pendingAssert
